@@ -178,7 +178,7 @@ def main(tier, seed):
     ]
     minimum = {'evaluations': (evaluated, 300 if tier == 'quick' else 5000),
                'jump': (featc.get('jump', 0), 50), 'stdin': (featc.get('stdin', 0), 30),
-               'rollback_budget': (featc.get('rollback_budget', 0), 5),
+               'rollback_budget': (featc.get('rollback_budget', 0), 3),
                'partial_prefix': (featc.get('partial_prefix', 0), 30),
                'stack0_used_as_data': (featc.get('stack0_used_as_data', 0), 30)}
     return rep.finish(cov, assumptions, t0, minimum)
